@@ -3,6 +3,7 @@ CONSTANTS
 Crit0 = {"c1", "c2", "c3"}
 Fresh = {"n1", "n2", "n3"}
 MaxLen = 3
+DisabledFlags = {FALSE}
 Probs = {0, 4}
 INVARIANTS Coherent SplitStable BiasEcho FireRule P1Always P0Never
 PROPERTIES Persistence SkipIsIdentity
